@@ -5,7 +5,7 @@
    C11/C12 and by the C33 harnesses) at the message schemas of C33/Model.v:
    schemas = [s_bam; s_bah; s_txm; s_body; s_ghs; s_gmsg; s_warp; s_lreq; s_lresp; s_header]. *)
 From Common Require Import Bytes Outcome.
-From Scale Require Import Compact Types Spec Codec Total Cost.
+From Scale Require Import Compact Types Spec Codec Total Cost WellTyped.
 From C33 Require Import Model Proofs.
 Local Open Scope N_scope.
 
@@ -24,6 +24,14 @@ Theorem C33_total_body : forall bs,
   fst (dec_body current bs) <> Panic /\ fst (dec_body current bs) <> OutOfFuel.
 Proof. exact total_body. Qed.
 Print Assumptions C33_total_body.
+
+(* a successfully decoded message re-encodes to an equal message: marshalling the decoded value
+   (encode_go = what scale.Marshal does) and decoding again returns the same value *)
+Theorem C33_reencode : forall t bs v r r', In t schemas ->
+  decode_res current t bs = Ok (v, r) ->
+  decode_res current t (encode_go t v ++ r') = Ok (v, r').
+Proof. exact reencode_schemas. Qed.
+Print Assumptions C33_reencode.
 
 (* steps and allocation (the model's meter counts both) linear in the input length, with the
    repaired decodeBytes ... *)
